@@ -39,7 +39,11 @@ elif subprocess.run(["git", "-C", "/repo", "apply", "--check", patch], capture_o
     if r.returncode == 0:
         base = r.stdout.strip()
 report["base_commit"] = base if base != "HEAD" else subprocess.run(["git", "-C", "/repo", "rev-parse", "--short", "HEAD"], capture_output=True, text=True).stdout.strip()
-subprocess.check_call(["git", "-C", "/repo", "worktree", "add", "-q", "--detach", wt, base])
+for _attempt in range(5):  # (concurrent `git worktree add` calls can collide on the repository lock)
+    if subprocess.call(["git", "-C", "/repo", "worktree", "add", "-q", "--detach", wt, base]) == 0:
+        break
+    import time
+    time.sleep(1 + _attempt)
 try:
     env = dict(os.environ, PYTHONPATH=wt, PYTHONDONTWRITEBYTECODE="1")
     import re
